@@ -810,7 +810,9 @@ func (s *Sched) sendReady(g *G, c *chanCore) bool {
 	if c.closed || len(c.buf) < c.cap {
 		return true
 	}
-	return s.findPartner(g, c, false) != nil
+	// FIFO wait queues (as in the Go runtime): of several goroutines blocked sending on c, only the
+	// one that has been waiting longest can complete with a receiver
+	return s.findPartner(g, c, false) != nil && !s.earlierWaiter(g, c, true)
 }
 
 func (s *Sched) recvReady(g *G, c *chanCore) bool {
@@ -820,7 +822,38 @@ func (s *Sched) recvReady(g *G, c *chanCore) bool {
 	if len(c.buf) > 0 || c.closed {
 		return true
 	}
-	return s.findPartner(g, c, true) != nil
+	return s.findPartner(g, c, true) != nil && !s.earlierWaiter(g, c, false)
+}
+
+// earlierWaiter reports whether another goroutine published a pending operation of the same
+// direction on c before g published its own.
+func (s *Sched) earlierWaiter(g *G, c *chanCore, send bool) bool {
+	if g.pend == nil {
+		return false
+	}
+	for _, p := range s.gs {
+		if p == g || p.done || p.pend == nil || p.pend.completed || p.pend.seq >= g.pend.seq {
+			continue
+		}
+		o := p.pend
+		switch o.kind {
+		case opSend:
+			if send && o.ch == c {
+				return true
+			}
+		case opRecv:
+			if !send && o.ch == c {
+				return true
+			}
+		case opSelect:
+			for _, sc := range o.cases {
+				if sc.ch == c && sc.send == send {
+					return true
+				}
+			}
+		}
+	}
+	return false
 }
 
 // findPartner returns the earliest-published goroutine other than g with a pending, not yet
